@@ -30,7 +30,7 @@ ASSUMPTIONS = ["float-additive hidden games (surplus below 1e-6*scale, the C15 c
                "independent-normalisation comparison only", "after a torn call the environment is only required to "
                "satisfy every clause again after reset()",
                "reward <= rounding tolerance is demanded only for class-matched hidden games"]
-PROBES = ["env_pickled_mid_session", "done_by_budget", "done_by_degenerate_before_exhaustion", "done_by_exhaustion", "unstep_after_2_steps",
+PROBES = ["second_client_interleaved", "env_pickled_mid_session", "done_by_budget", "done_by_degenerate_before_exhaustion", "done_by_exhaustion", "unstep_after_2_steps",
           "reset_after_torn_call", "solver_probe", "model_instance_env", "independent_normalisation_checked",
           "step_after_done", "unstep_out_of_order"]
 TIERS = {
@@ -123,9 +123,14 @@ def _drive(sim: Sim, env, source, n, comp_name, gap, budget, matched, exact, SOL
     sim.op("construct")
     em.check_env(sim, env, n, comp_name, gap, hidden, revealed, steps_taken, budget, matched, exact, P)
     solvers = {}
+    other = em.OtherClientEnv(sim, n, comp_name, gap, "SAM" if comp_name.startswith("sam") else "SA", budget=budget) \
+        if sim.flip(1, 3, "second-client") else None
     calls = 8 + sim.choose(33, "calls")
     for _ in range(calls):
         valid = [a for a in range(len(env.explorable_coalitions)) if a not in revealed]
+        if other is not None and sim.flip(1, 3, "other-client-moves"):
+            other.act(sim.pick(valid, "upcoming") if valid and sim.flip(1, 2, "lockstep") else None)
+            sim.probe("second_client_interleaved")
         kinds = [("reset", 2), ("probe", 2), ("torn", 1)]
         if sim.flip(1, 20, "other-use"):
             prelude.warm_process(sim, label="midrun")
